@@ -7,11 +7,21 @@ Reading (DESIGN §6 C03): for equal options on both sides (`platform_aware`, `st
 (a) `canon u = canon v → norm u = norm v`; (b) `norm u = norm v → fp u = fp v`;
 (c1) `norm (canon u) = norm u`; (c2) `fp (canon u) = fp u`.
 
-As for C01/C02 the theorems are about what the functions compute from the record the real
-parser returned (`Parsed`); that the printed canonical URL is parsed back into its components
-(`Reparses`) and that the lower-cased URL is parsed into the lower-cased components
-(`lowerParsed`) is CPython — evaluated by the driver on every generated input (`c03_bridge`,
-`c03_lower`) and covered by the oracle, which works on the strings.
+The theorems of THIS file are about what the functions compute from a `Parsed` record, for ALL
+records, under the hypothesis `Reparses` ("the printed canonical URL is parsed back into its
+components").  `Props/C03String.lean` discharges that hypothesis for the modelled parser
+(`Py.parseUrl`: `reparses_reparsedOf`, from C01's `canonicalize_reparse`) and assembles the
+STRING-level statements `normalize_canonicalize_string_partial` (c1),
+`normalize_of_canon_eq_string_partial` (a), `fingerprint_canonicalize_string_partial` (c2),
+`fingerprint_of_normalize_eq_string_partial` (b) about `canonicalizeUrl` / `normalizeUrlString` /
+`fingerprintUrlString`.  What stays outside the proofs: that the hand model of `urlsplit` +
+accessors is CPython's (compared on every case; the driver lines `c03_bridge`, `c03_lower`
+evaluate the two bridging facts on what the REAL parser returned), and that the parse of
+`u.lower()` is `lowerParsed` of the parse of `u` (the string-level (b)/(c2) are stated for
+strings `str.lower` leaves alone).
+
+`fingerprint_second_pass` and `normalize_port_scheme_blind` are congruence / unfolding LEMMAS used
+by the proofs; no clause of the property rests on them alone.
 -/
 namespace Ural.Props.C03
 open Ural Ural.Py Ural.UrlParts Ural.Quote Ural.Canonicalize Ural.Normalize Ural.Fingerprint Ural.C03
@@ -107,7 +117,8 @@ theorem not_fullNormalizeCanonicalize : ¬ FullNormalizeCanonicalize id := by
   revert h2
   decide +kernel
 
-/-- port clause (how (c1) survives the two default protocols): `canonicalize_url` drops 80 only
+/-- LEMMA (the port step of `normalize_canonicalize_partial`, whose statement is what says that
+(c1) holds whatever scheme `s0` canonicalisation assumed): `canonicalize_url` drops 80 only
 for http and 443 only for https — and assumes https for a scheme-less URL where
 `normalize_url` assumes http — but whatever port it dropped, `normalize_url` drops too -/
 theorem normalize_port_scheme_blind (s0 : Str) (port : Option Nat) :
@@ -172,7 +183,8 @@ example :
 
 /-! ## (b), (c2): `fingerprint_url` from `normalize_url` -/
 
-/-- the second pass of `fingerprint_url` reads of `normalize_url`'s result: the netloc, and path,
+/-- LEMMA (a congruence, used by (b); not the support of a clause): the second pass of
+`fingerprint_url` reads of `normalize_url`'s result: the netloc, and path,
 query and fragment up to letter case — nothing else -/
 theorem fingerprint_second_pass (E : Env) (ss : Bool) (r₁ r₂ : Split)
     (h : r₁.netloc = r₂.netloc ∧ lower r₁.path = lower r₂.path ∧ lower r₁.query = lower r₂.query ∧
@@ -233,7 +245,7 @@ theorem fingerprint_canonicalize_partial (E : Env)
   fp_of_norm_eq_lower sortHyp E ss p' p hLp' hLp true true b' b
     (normParts_reparse_canon E.puny hp pathHyp {} rfl rfl rfl rfl p p' hAbs (fun e => absurd e (by decide)) s0 hR true true)
 
-/-! ### the excluded region of (b) really fails (replayed on the implementation: KF-C03-6)
+/-! ### the excluded region of (b) really fails (replayed on the implementation: KF-C03-3)
 
 `/Index.html` and `/Index.html/index.html` have the same normalized form (the index test is
 case-sensitive, and strips one segment), but once lower-cased the first loses its only segment
